@@ -43,6 +43,13 @@ func TestWorker(t *testing.T) {
 				maxMul = 0
 			}
 			if err := bip324ref.SelfCheck(maxMul); err != nil {
+				// A published vector that disagrees with the REPOSITORY's own
+				// ellswift / ECDH code is a violation of C19's last clause
+				// (reported by every run); anything else is a harness error.
+				if rm, ok := err.(*bip324ref.RepoMathError); ok {
+					repoMathViolation = rm.Msg
+					return
+				}
 				t.Fatalf("harness error: %v", err)
 			}
 		},
@@ -93,8 +100,15 @@ type sim struct {
 	sendCross  [2]int
 }
 
+// repoMathViolation is set when the published BIP324 vectors disagree with the
+// repository's ElligatorSwift / ECDH code.
+var repoMathViolation string
+
 func run(r *simkit.Run) {
 	r.MarkEpoch()
+	if repoMathViolation != "" {
+		r.Violate(propID, "ellswift-ecdh-equals-bip324-vectors", "", "%s", repoMathViolation)
+	}
 	s := &sim{r: r, thorough: r.Tier == "thorough"}
 	s.poison = [2]int{-1, -1}
 	s.plan()
